@@ -16,7 +16,7 @@ use std::sync::Arc;
 use bnum::types::{I4096, I512};
 use bnum::BInt;
 use num_integer::Integer;
-use num_traits::ToPrimitive;
+use num_traits::{Signed, ToPrimitive};
 use yamaquasi::matrix::intdense::{self, GFpEchelonBuilder, SmithNormalForm};
 use yamaquasi::matrix::intsparse::{self, SparseMat};
 
@@ -808,13 +808,21 @@ fn bits_diag(bits: u32, chunk: u32, variant: u32) -> Vec<i64> {
     while d.len() < 2 {
         d.push(1);
     }
-    // variants of the last entry move log2 across the rounding boundary
+    // variants move log2 within and across the rounding interval of `bits`:
+    // 0: just below bits; 1: -0.415; 2: +0.585 (next integer); 3: +0.32; 4: +0.46; 5: -0.19
+    // (3 and 4 are the upper half of the interval, where |det| exceeds 2^bits)
     let last = d.len() - 1;
-    if variant == 1 && d[last] > 4 {
-        d[last] = d[last] / 4 * 3; // -0.415 bits
-    }
-    if variant == 2 && d[last] > 1 && d[last] < 1 << (chunk - 1) {
-        d[last] = d[last] / 2 * 3 + 1; // +0.585 bits
+    // the entry that carries the multiplier: the last one when it is large enough to be scaled
+    // accurately, otherwise the first
+    let k = if d[last] >= 256 { last } else { 0 };
+    let room = d[k] < 1 << (chunk.min(58));
+    match variant {
+        1 if d[k] > 4 => d[k] = d[k] / 4 * 3,
+        2 if d[k] > 1 && (room || chunk <= 58) => d[k] = d[k] / 2 * 3 + 1,
+        3 if d[k] >= 256 => d[k] = d[k] / 4 * 5,
+        4 if d[k] >= 256 => d[k] = d[k] / 8 * 11,
+        5 if d[k] >= 256 => d[k] = d[k] / 8 * 7,
+        _ => {}
     }
     d
 }
@@ -845,7 +853,7 @@ fn scramble_fixed(dd: &[i64]) -> (Mat, i64) {
 fn part_bits(bits: u32) -> Tally {
     let mut t = Tally::default();
     let fam = "bit-length-sweep".to_string();
-    for variant in 0..3 {
+    for variant in 0..6 {
         // det_matz: entries just below 2^59
         let dd = bits_diag(bits, 59, variant);
         let n = dd.len();
@@ -1170,6 +1178,210 @@ fn part_dense_big(n: usize, variant: u64) -> Tally {
     t
 }
 
+/// Part I: large lattice indices from many small diagonal entries (entries stay relation-like):
+/// the Smith form switches arithmetic paths at h = 2^60 (8-row blocks), 2^63 and beyond.
+fn part_big_index(target_bits: f64, extra_dim: usize, variant: u64) -> Tally {
+    let mut t = Tally::default();
+    let pool = [3i64, 5, 7, 11, 13, 17, 19, 23, 29, 31, 37, 41, 43, 47];
+    let mut d: Vec<i64> = vec![];
+    let mut lg = 0f64;
+    let mut k = variant as usize;
+    while lg + 1.5 < target_bits {
+        let p = pool[k % pool.len()];
+        if lg + (p as f64).log2() > target_bits + 0.4 {
+            k += 1;
+            if d.len() > 60 {
+                break;
+            }
+            // try a smaller prime to land inside the band
+            let q = pool.iter().cloned().find(|&q| lg + (q as f64).log2() <= target_bits + 0.4);
+            match q {
+                Some(q) => {
+                    d.push(q);
+                    lg += (q as f64).log2();
+                }
+                None => break,
+            }
+            continue;
+        }
+        d.push(p);
+        lg += (p as f64).log2();
+        k += 1;
+    }
+    for _ in 0..extra_dim {
+        d.push(1);
+    }
+    let n = d.len();
+    if n < 3 || n > 60 {
+        return t;
+    }
+    let h: u128 = d.iter().map(|&x| x as u128).product();
+    let group = primary(&d.iter().map(|&x| x as u128).collect::<Vec<_>>()).unwrap_or_default();
+    let ids: Vec<u32> = crate::refmodel::primes_below(400).into_iter().skip(1).take(n).map(|p| p as u32).collect();
+    for (rounds, kind) in [(2usize, "mild"), (5, "medium")] {
+        let (m, det) = scrambled(n, &d, rounds, variant * 7907 + n as u64 + rounds as u64);
+        if det.unsigned_abs() != h {
+            t.bad.push(("what=MACHINERY".into(), "big index: tracked determinant".into(), String::new()));
+            return t;
+        }
+        let mut rr = m.clone();
+        let mut z = variant ^ 0xb16;
+        for _ in 0..n / 2 + 8 {
+            let mut row = vec![0i64; n];
+            for a in 0..n {
+                z = mix64(z);
+                let s = match z % 4 {
+                    0 => 1,
+                    1 => -1,
+                    _ => 0,
+                };
+                for col in 0..n {
+                    row[col] += s * m[a][col];
+                }
+            }
+            if row.iter().any(|&x| x != 0) {
+                rr.push(row);
+            }
+        }
+        let fam = format!("big-index-{}bits", target_bits);
+        let id = || format!("n={n} diag {:?} (log2 h = {:.2}), {kind} scramble, {} redundant rows, variant {variant}", d, (h as f64).log2(), rr.len() - n);
+        t.states += 1;
+        if h < 1u128 << 124 {
+            t.evals += check_lattice_dense(&rr, h, &fam, &id, &mut t.bad, false);
+            t.evals += 1;
+            check_snf(&rr, &ids, h, &group, &fam, &id, &mut t.bad);
+        }
+    }
+    t
+}
+
+fn rank_mod_p(m: &Mat, p: u64) -> usize {
+    let n = m.len();
+    let mul = |a: u64, b: u64| ((a as u128 * b as u128) % p as u128) as u64;
+    let pw = |mut a: u64, mut e: u64| {
+        let mut r = 1u64;
+        while e > 0 {
+            if e & 1 == 1 {
+                r = mul(r, a);
+            }
+            a = mul(a, a);
+            e >>= 1;
+        }
+        r
+    };
+    let mut a: Vec<Vec<u64>> = m.iter().map(|r| r.iter().map(|&x| (x as i128).rem_euclid(p as i128) as u64).collect()).collect();
+    let mut rank = 0;
+    for col in 0..n {
+        let Some(pv) = (rank..n).find(|&i| a[i][col] != 0) else { continue };
+        a.swap(pv, rank);
+        let inv = pw(a[rank][col], p - 2);
+        for i in rank + 1..n {
+            if a[i][col] == 0 {
+                continue;
+            }
+            let f = mul(a[i][col], inv);
+            for j in col..n {
+                let v = mul(f, a[rank][j]);
+                a[i][j] = (a[i][j] + p - v) % p;
+            }
+        }
+        rank += 1;
+    }
+    rank
+}
+
+/// Part J: dense matrices with small entries whose quotient is cyclic of large order
+/// (pivots 1, ..., 1, h: the Smith form's 8-row blocked elimination with a large modulus).
+/// The determinant comes from Bareiss elimination; the quotient is cyclic iff the rank modulo
+/// every prime divisor of h is n - 1 (checked; other matrices are skipped).
+fn part_cyclic_dense(n: usize, range: i64, seed: u64) -> Tally {
+    let mut t = Tally::default();
+    let mut z = seed.wrapping_mul(0x9e37_79b9).wrapping_add(n as u64);
+    let mut m: Mat = vec![vec![0; n]; n];
+    for i in 0..n {
+        for j in 0..n {
+            z = mix64(z);
+            m[i][j] = (z % (2 * range as u64 + 1)) as i64 - range;
+        }
+    }
+    let det = det_bareiss(&m);
+    let Some(dabs) = det.abs().to_u128() else { return t };
+    if dabs < 1u128 << 40 || dabs >= 1u128 << 64 {
+        return t;
+    }
+    let h = dabs as u64;
+    let fac = factor_rho(h);
+    if fac.iter().any(|&(p, _)| rank_mod_p(&m, p) != n - 1) {
+        return t; // not cyclic
+    }
+    let group: Vec<(u64, u32)> = fac.clone();
+    let ids: Vec<u32> = crate::refmodel::primes_below(400).into_iter().skip(1).take(n).map(|p| p as u32).collect();
+    let mut rr = m.clone();
+    let mut zz = seed ^ 0xc1c;
+    for _ in 0..n / 2 + 8 {
+        let mut row = vec![0i64; n];
+        for a in 0..n {
+            zz = mix64(zz);
+            let s = match zz % 4 {
+                0 => 1,
+                1 => -1,
+                _ => 0,
+            };
+            for col in 0..n {
+                row[col] += s * m[a][col];
+            }
+        }
+        if row.iter().any(|&x| x != 0) {
+            rr.push(row);
+        }
+    }
+    let band = ((h as f64).log2() * 2.0).floor() / 2.0;
+    let fam = format!("cyclic-dense-n{n}-2^{band}");
+    let id = || format!("n={n} entries in [-{range},{range}] seed {seed}: cyclic quotient of order {h} (log2 = {:.2}), {} redundant rows", (h as f64).log2(), rr.len() - n);
+    t.states += 1;
+    t.notes.push(format!("family {fam}"));
+    t.evals += check_lattice_dense(&rr, h as u128, &fam, &id, &mut t.bad, false);
+    t.evals += 1;
+    check_snf(&rr, &ids, h as u128, &group, &fam, &id, &mut t.bad);
+    // determinant routines on the same dense matrix
+    let det_i = if det.is_negative() { -(dabs as i128) } else { dabs as i128 };
+    t.evals += 2;
+    check_det_matz(&m, &i4096_of_i128(det_i), log2_abs_i128(det_i), &fam, &id, &mut t.bad);
+    check_echelon(&m, &|p| mod_i128(det_i, p), &fam, &id, &mut t.bad);
+    t
+}
+
+/// Part H: lattices whose successive minors need different numbers of CRT moduli: the rows are
+/// r0 = (d0,0,0), r1 = (1,d1,0), k1*r2 + r0, k2*r2 + r1 with r2 = (0,1,1) and gcd(k1,k2) = 1, so
+/// the lattice is the one generated by r0, r1, r2 (index d0*d1) but the first minors are k1*h
+/// and k2*h (the first too large a multiple to be resolved, the second crossing a 61-bit step).
+fn part_minor_steps(a: u32, b: u32) -> Tally {
+    let mut t = Tally::default();
+    let (d0, d1) = ((1i64 << a) - 3, (1i64 << b) - 5);
+    let h = d0 as u128 * d1 as u128;
+    // k2 > d0 keeps the long rows last in the routine's norm order
+    for (k1, k2) in [(20011i64, (1i64 << (a + 1)) + 1), (65537, (1 << (a + 1)) + 43), (30029, (1 << (a + 2)) + 7)] {
+        if (k1 as u64).gcd(&(k2 as u64)) != 1 {
+            continue;
+        }
+        let rows: Mat = vec![vec![d0, 0, 0], vec![1, d1, 0], vec![d0, k1, k1], vec![1, d1 + k2, k2]];
+        // machinery: the gcd of all 3x3 minors is the index
+        let g = all_minors_gcd(&to_i128m(&rows), 3);
+        if g.unsigned_abs() != h {
+            t.bad.push(("what=MACHINERY".into(), format!("minor-step lattice: gcd of minors {g} != {h}"), String::new()));
+            return t;
+        }
+        let fam = "minor-steps".to_string();
+        let id = || format!("rows (d0,0,0),(1,d1,0),(d0,k1,k1),(1,d1+k2,k2) with d0=2^{a}-3 d1=2^{b}-5 k1={k1} k2={k2}");
+        t.states += 1;
+        t.evals += check_lattice_dense(&rows, h, &fam, &id, &mut t.bad, false);
+        // and in the other row order of the two long rows
+        let rows2: Mat = vec![rows[0].clone(), rows[1].clone(), rows[3].clone(), rows[2].clone()];
+        t.evals += check_lattice_dense(&rows2, h, &fam, &id, &mut t.bad, false);
+    }
+    t
+}
+
 // ------------------------------------------------------------------ run
 
 fn fnv64(s: &str) -> u64 {
@@ -1207,6 +1419,9 @@ enum Job {
     Bm(u64, usize, Vec<u64>),
     SparseBig(usize, u64, bool),
     DenseBig(usize, u64),
+    MinorSteps(u32, u32),
+    BigIndex(f64, usize, u64),
+    CyclicDense(usize, i64, u64),
 }
 
 fn run_job(j: &Job) -> Tally {
@@ -1218,6 +1433,9 @@ fn run_job(j: &Job) -> Tally {
         Job::Bm(p, size, a) => part_bm(*p, *size, a),
         Job::SparseBig(n, v, pool) => part_sparse_big(*n, *v, *pool),
         Job::DenseBig(n, v) => part_dense_big(*n, *v),
+        Job::MinorSteps(a, b) => part_minor_steps(*a, *b),
+        Job::BigIndex(b, e, v) => part_big_index(*b, *e, *v),
+        Job::CyclicDense(n, r, v) => part_cyclic_dense(*n, *r, *v),
     }
 }
 
@@ -1343,6 +1561,25 @@ pub fn run(ctx: &Ctx) -> Report {
             jobs.push(Job::DenseBig(n, v * 29 + 3));
         }
     }
+    // H: minors crossing a CRT modulus-count step inside one cached builder
+    for a in 15..=24u32 {
+        // d1 < d0 keeps r0, r1 the two shortest rows (a saturated pair)
+        for b in [a, a - 1, a - 3] {
+            jobs.push(Job::MinorSteps(a, b));
+        }
+    }
+    // I: large indices on both sides of the Smith form's arithmetic switches
+    for tb in [40.0f64, 59.5, 60.5, 61.5, 62.5, 63.5, 64.5, 80.0, 100.0, 120.0] {
+        for v in 0..ctx.pick(6u64, 40) {
+            jobs.push(Job::BigIndex(tb, (v % 3) as usize, v));
+        }
+    }
+    // J: dense, cyclic quotient of order up to 2^64
+    for (n, r) in [(10usize, 40i64), (11, 30), (12, 22), (13, 18), (14, 16), (15, 12), (16, 10)] {
+        for v in 0..ctx.pick(40u64, 400) {
+            jobs.push(Job::CyclicDense(n, r, v));
+        }
+    }
     if let Some(k) = std::env::var("VERIF_C19_ONLY").ok().and_then(|s| s.parse::<usize>().ok()) {
         // debugging aid: a single job
         let j = jobs.swap_remove(k);
@@ -1412,7 +1649,11 @@ pub fn run(ctx: &Ctx) -> Report {
     rep.states = total.states;
     rep.transitions = total.transitions;
     rep.set("jobs", J::from(njobs));
-    rep.set("notes", J::A(total.notes.iter().map(|s| J::s(s.clone())).collect()));
+    let mut note_counts: std::collections::BTreeMap<String, u64> = Default::default();
+    for n in &total.notes {
+        *note_counts.entry(n.clone()).or_default() += 1;
+    }
+    rep.set("notes", J::A(note_counts.iter().map(|(k, c)| J::s(format!("{k}: {c}"))).collect()));
     rep.sample(J::obj(vec![("family", J::s("all 3x3 matrices over {-1,0,1}")), ("routines", J::s("det_matz (|det|>=2), GFpEchelonBuilder mod 4 primes, compute_lattice_index"))]));
     rep.sample(J::obj(vec![("family", J::s("histories from diag(6,10,15)")), ("alphabet", J::s("row/col add +-1, swaps, negations (36 ops)")), ("depth", J::from(d3))]));
     rep.sample(J::obj(vec![("family", J::s("bit-length sweep")), ("bits", J::s(format!("1..{}", ctx.pick(400, 1300))))]));
